@@ -3,7 +3,7 @@
    the segment sizes used by MultiHash.v are regenerated from SegmentedArray.h on every run (Gen_Segments.v),
    and all models are run against the real momo::DataTable / DataIndexes on every run. *)
 From Coq Require Import List ZArith Bool Permutation.
-From C07 Require Import TableSpec TableProofs NumModel MultiHash MultiHashProofs SegProofs IndexModel IndexProofs AtomicProofs RefineProofs.
+From C07 Require Import TableSpec TableProofs NumModel MultiHash MultiHashProofs SegProofs IndexModel IndexProofs AtomicProofs RefineProofs ConsProofs ReachProofs.
 Import ListNotations.
 
 (* For EVERY history of table operations starting from the empty table (adds, inserts, whole-row and
@@ -245,3 +245,80 @@ Theorem C07_multi_add_preserves_consistency :
   m_cons ct (rs ++ [raw]) (m_accept_add (m_add ord R ct m raw tag)).
 Proof. exact m_add_preserves_cons. Qed.
 Print Assumptions C07_multi_add_preserves_consistency.
+
+(* The analogue of C07_update_column_index_consistent for the MULTI hash, code after 2211fdb: for every entry order
+   and every reflexive visibility relation, after the accepted single-column update the multi hash again partitions
+   exactly the table rows by their (NEW) projected keys - the row has left its old group and sits in the group of its
+   new key (created if necessary) - stored keys are pairwise different, every row is listed once and the completed
+   segments of every value array are sorted. *)
+Theorem C07_multi_update_column_index_consistent :
+  forall ord R ct rs m raw c v tag,
+  (forall s, R s s = true) -> m_cons ct rs m -> In raw rs -> ~ In tag (map gtag (mgroups m)) ->
+  has_col (mcols m) c = true -> c < length (ct raw) -> v <> getc (ct raw) c ->
+  (forall g, In g (mgroups m) -> length (gvals g) < max_vals) ->
+  let ct' := fun x => if Z.eqb x raw then set_col c v (ct raw) else ct x in
+  m_cons ct' rs (m_accept_remove (m_accept_add (m_prepare_remove true R ct (m_add_mixed ord R ct m raw c v tag) raw)) raw).
+Proof. exact m_update_column_preserves_cons. Qed.
+Print Assumptions C07_multi_update_column_index_consistent.
+
+(* DataIndexes::AddRaw on the WHOLE index state (all unique and multi hashes, two phases, any failure step fl, any
+   entry order, any R): a state consistent with the table rows rs stays consistent - with rs + the new row when the
+   operation is accepted, with rs when it is refused or throws. *)
+Theorem C07_add_raw_preserves_consistency :
+  forall ord R ct fl rs s raw,
+  (forall k, R k k = true) -> good ct rs s -> ~ In raw rs -> length rs < max_vals ->
+  let '(s', o) := add_raw ord R ct fl s raw in
+  (o = Accepted /\ good ct (rs ++ [raw]) s') \/ (o <> Accepted /\ good ct rs s').
+Proof. exact add_raw_good. Qed.
+Print Assumptions C07_add_raw_preserves_consistency.
+
+(* DataIndexes::RemoveRaw on the whole index state *)
+Theorem C07_remove_raw_preserves_consistency :
+  forall R ct fl rs rs' s raw,
+  (forall k, R k k = true) -> good ct rs s -> Permutation rs (raw :: rs') ->
+  let '(s', o) := remove_raw true true R ct fl s raw in
+  (o = Accepted /\ good ct rs' s') \/ (o <> Accepted /\ good ct rs s').
+Proof. exact remove_raw_good. Qed.
+Print Assumptions C07_remove_raw_preserves_consistency.
+
+(* DataIndexes::UpdateRaw(raw, column, item, assigner) on the whole index state: consistent with the returned row
+   contents, which are the old ones unless the update was accepted *)
+Theorem C07_update_column_preserves_consistency :
+  forall ord R ct fl rs s raw c v,
+  (forall k, R k k = true) -> good ct rs s -> In raw rs -> c < length (ct raw) -> length rs <= max_vals ->
+  let '(s', o, ctn) := update_col true true ord R ct fl s raw c v in
+  good ctn rs s' /\ (o <> Accepted -> ctn = ct).
+Proof. exact update_col_good. Qed.
+Print Assumptions C07_update_column_preserves_consistency.
+
+(* EVERY index state reachable from the empty table - indexes created at any time over the current rows, AddRaw /
+   RemoveRaw / single-column UpdateRaw with any failure step, entry order and visibility relation, arbitrary changes
+   to rows outside the table - is consistent with the current table rows (below max_vals rows). *)
+Theorem C07_every_reachable_index_state_consistent :
+  forall ct rs s, reach ct rs s -> good ct rs s.
+Proof. exact every_reachable_index_state_consistent. Qed.
+Print Assumptions C07_every_reachable_index_state_consistent.
+
+(* THE CENTRAL SENTENCE: after any such history, FindRaws through any unique or multi hash of the state, and
+   Select / SelectCount through any index that covers the predicate (index equalities + residual filter), return
+   exactly the rows (and the count) that the brute-force filter over the current rows returns. *)
+Theorem C07_queries_equal_brute_force_all_histories :
+  forall ct rs s, reach ct rs s ->
+  (forall R u k, (forall x, R x x = true) -> In u (uhs s) ->
+     Permutation (find_unique R ct u k) (filter (has_key ct (ucols u) k) rs)) /\
+  (forall R m k, (forall x, R x x = true) -> In m (mhs s) ->
+     Permutation (find_multi R ct m k) (filter (has_key ct (mcols m) k) rs)) /\
+  (forall R u k f g, (forall x, R x x = true) -> In u (uhs s) -> (forall r, g r = has_key ct (ucols u) k r && f r) ->
+     Permutation (select_via_unique R ct u k f) (select_scan rs g) /\
+     length (select_via_unique R ct u k f) = length (select_scan rs g)) /\
+  (forall R m k f g, (forall x, R x x = true) -> In m (mhs s) -> (forall r, g r = has_key ct (mcols m) k r && f r) ->
+     Permutation (select_via_multi R ct m k f) (select_scan rs g) /\
+     length (select_via_multi R ct m k f) = length (select_scan rs g)).
+Proof. exact queries_equal_brute_force_all_histories. Qed.
+Print Assumptions C07_queries_equal_brute_force_all_histories.
+
+(* the one-array segment invariant lifted: every group of every multi hash of every reachable state *)
+Theorem C07_reachable_segments_sorted :
+  forall ct rs s m g, reach ct rs s -> In m (mhs s) -> In g (mgroups m) -> vals_ok (gvals g).
+Proof. exact reachable_segments_sorted. Qed.
+Print Assumptions C07_reachable_segments_sorted.
